@@ -276,7 +276,7 @@ def exec_run(spec):
 
 
 CHECKS = [
-    Check("graph_states", exec_state, strategy=state_strategy, budget={"quick": 1200, "thorough": 40000}),
+    Check("graph_states", case_timeout=60, timeout_is_violation=True, execute=exec_state, strategy=state_strategy, budget={"quick": 1200, "thorough": 40000}),
     Check("greedy_run_offers", exec_run, strategy=run_worlds, budget={"quick": 1500, "thorough": 40000}),
     Check("greedy_run_offers_zero_runtime", exec_run, strategy=run_worlds_zero, budget={"quick": 500, "thorough": 10000}),
 ]
